@@ -19,6 +19,12 @@ CHECKS = {
         text="Every entry of the five tables and of FK/CK is compared with the standard's formula (exhaustive over the tables, so a wrong entry is found even if no vector reaches it); Enc/Dec are compared with TLC's values for the standard example, every single-bit key and block, byte fills and pseudo-random pairs; all call sequences of depth 3 (4 thorough) over Encrypt/Decrypt x 3 blocks x aliasing on one object are replayed and each result validated by TLC; key lengths 0..64.",
         note="Trusts TLC + Bitwise, the GM/T 0002 example anchoring SM4.tla, and that VerifTables returns the arrays cryptBlock reads. Correctness for all 2^256 (key, block) pairs follows only insofar as the round structure is the standard's and the tables are right; it is decided on the enumerated vectors.",
         ref="DESIGN.md section 5 C05"),
+    "C06": dict(
+        level="model_checking",
+        technique="TLA+ configuration-level specification TLCPCfg (policy verdict per configuration, enumerated by TLC) replayed as real handshakes; TLA+ executable transcription of the GM/T 0024 key schedule and record protection (RecordWire over SM3/HMAC/PRF/SM4/GCM) decoding captured GMSSL wire bytes + key log in TLC; Go standard library crypto/tls as independent TLS 1.0-1.2 peer",
+        text="TLC enumerates 8.7k configurations (server mode x client kind x suite lists and preference x ClientAuth x client certificate absent/trusted/untrusted x certificate source x tickets) with the verdict the policy demands; each chosen configuration (all in thorough) is a real gmtls client/server handshake whose outcome, version, suite, peer certificates and exported keying material on both ends are compared with the specification, a subset also moves 260 kB in odd fragment sizes; captured GMSSL sessions of both suites are decoded by TLC from the wire and the key log alone (key block, first protected records, both Finished verify_data, application data); every TLS role/version/suite is run against crypto/tls.",
+        note="Trusts TLC, the fixture PKI, the interposer. The independent GM/T 0024 implementation is the TLA+ specification itself (none is installed); ECDHE-SM2 suites are specified as not negotiable (no server implementation). Alert codes and which side errs first are not compared.",
+        ref="DESIGN.md section 5 C06"),
     "C07": dict(
         level="model_checking",
         technique="TLA+ spec Record (authenticated channel + bounded active adversary) model-checked by TLC; every canonical adversary schedule TLC generates is executed by a record-level man in the middle between real established GMSSL connections; record-layer hooks traced from the real code are validated by TLC (HalfConnTrace: sequence numbers, nonces/IVs, sticky error)",
